@@ -53,7 +53,12 @@ def write_table(rows, path, sep="\t", columns=None):
             fh.write(sep.join(str(r[c]) for c in cols) + "\n")
 
 
-def make_clusters(rng, rows, n_clusters, outlier_prob_col=None, prev_col="cellular_prevalence"):
+def prob_index(cluster_id, n):
+    """Which entry of a per-cluster outlier-probability list a cluster gets (ids are integers or 'C<integer>')."""
+    return int(str(cluster_id).lstrip("C")) % n
+
+
+def make_clusters(rng, rows, n_clusters, outlier_prob_col=None, prev_col="cellular_prevalence", textual_ids=False):
     """Cluster file rows (PyClone-VI style: integer cluster ids, one row per mutation and sample)."""
     muts = []
     for r in rows:
@@ -62,6 +67,9 @@ def make_clusters(rng, rows, n_clusters, outlier_prob_col=None, prev_col="cellul
     n_clusters = max(1, min(n_clusters, len(muts)))
     # integer cluster ids (as PyClone-VI emits) that sort differently as numbers and as strings
     ids = [2, 10, 33, 7, 100, 21, 5, 64][:n_clusters] if n_clusters <= 8 else list(range(n_clusters))
+    if textual_ids:
+        # the README does not restrict cluster ids to integers
+        ids = ["C%d" % i for i in ids]
     assign = {m: ids[i] for i, m in enumerate(muts[:n_clusters])}
     for m in muts[n_clusters:]:
         assign[m] = ids[int(rng.integers(0, n_clusters))]
@@ -72,7 +80,7 @@ def make_clusters(rng, rows, n_clusters, outlier_prob_col=None, prev_col="cellul
             # PyClone-VI calls the column cellular_prevalence, PhyClone's README calls it ccf
             row[prev_col] = 0.5
         if outlier_prob_col is not None:
-            row["outlier_prob"] = outlier_prob_col[assign[r["mutation_id"]] % len(outlier_prob_col)]
+            row["outlier_prob"] = outlier_prob_col[prob_index(assign[r["mutation_id"]], len(outlier_prob_col))]
         out.append(row)
     return out, assign
 
